@@ -368,6 +368,8 @@ theorem wf_sub_nopds {env : Env} (henv : EnvOK env) {bit : Nat} {f : FieldCfg} {
       rw [hn]; simp
     · injection hsub with e; subst e; intro kv hkv; simp at hkv
   | int n => intro kv hkv; simp at hkv
+  | intText t n => intro kv hkv; simp at hkv
+  | dateText t d bs => intro kv hkv; simp at hkv
   | date d bs => intro kv hkv; simp at hkv
   | icc b sub hproc hty hne hfix hvar hsub =>
     unfold iccToDict at hsub
@@ -407,10 +409,12 @@ theorem applyItems_get_unique (acc : Dict) (items : List Item) (hnd : (items.map
 
 /-- the sub-dictionary of an element whose value is a text: it is what `derived` returned -/
 theorem wf_text_sub {env : Env} {bit : Nat} {f : FieldCfg} {t : Text} {exp : Val} {sub : Dict}
-    (hw : WFField env bit f (.str t) exp sub) :
+    (hw : WFField env bit f (.str t) exp sub) (hpds : f.proc = .pds) :
     exp = .str (transform f t) ∧ derived env bit f (.str (transform f t)) = .ok sub := by
   cases hw with
   | text t bs sub hproc hty henc hne hfix hvar hsub => exact ⟨rfl, hsub⟩
+  | intText t n hproc => rw [hproc] at hpds; simp at hpds
+  | dateText t d bs hproc => rw [hproc] at hpds; simp at hpds
 
 end Cardutil.Iso
 
@@ -501,6 +505,8 @@ theorem wf_text_ne {env : Env} {bit : Nat} {f : FieldCfg} {t : Text} {exp : Val}
     (hw : WFField env bit f (.str t) exp sub) : t ≠ [] := by
   cases hw with
   | text t bs sub hproc hty henc hne hfix hvar hsub => exact hne
+  | intText t n hproc hty hfix hw hne => exact hne
+  | dateText t d bs hproc hty hfix hne => exact hne
 
 theorem nodup_getElem_inj {l : List Nat} (h : l.Nodup) (i j : Nat) (hi : i < l.length) (hj : j < l.length)
     (heq : l[i] = l[j]) : i = j := by
@@ -615,7 +621,7 @@ theorem pds_roundtrip {env : Env} (henv : EnvOK env) (cfg : Config) (hexBitmap :
     rw [hf] at hcfg2
     injection hcfg2 with ef
     subst ef
-    obtain ⟨_, hsub2⟩ := wf_text_sub hw2
+    obtain ⟨_, hsub2⟩ := wf_text_sub hw2 hproc
     obtain ⟨htr, hd⟩ := carrier_derived henv hp _ (List.getElem_mem hi) ((pdsCarriers cfg)[i]) f hproc
     rw [htr, hd] at hsub2
     injection hsub2 with esub
@@ -637,7 +643,7 @@ theorem pds_roundtrip {env : Env} (henv : EnvOK env) (cfg : Config) (hexBitmap :
         rw [hvo] at hvj
         injection hvj with evj
         subst evj
-        obtain ⟨_, hsubo⟩ := wf_text_sub hwo
+        obtain ⟨_, hsubo⟩ := wf_text_sub hwo hpo
         obtain ⟨htro, hdo⟩ := carrier_derived henv hp _ (List.getElem_mem hjl) o.bit fo hpo
         rw [htro, hdo] at hsubo
         injection hsubo with esubo
